@@ -334,10 +334,7 @@ func (w *tworld) actorOp(content string) {
 
 // H_Transform (C06 + C07): the plain Transform controller with input finalizers.
 func H_Transform() {
-	steps := 2
-	if verif.Tier() == "thorough" {
-		steps = 3
-	}
+	steps := 2 // both tiers; the thorough tier deepens the delay bound (3 steps: > 600 000 paths)
 	w := newTWorld()
 	defer w.cancel()
 	budget := 1
